@@ -575,6 +575,14 @@ fn factored_code_delta(prev_offset: u32, offset: u32, factor: u8) -> Result<u32>
     }
     let delta = offset - prev_offset;
     let factor = u32::from(factor);
+    if factor == 0 {
+        // Only a zero delta can be expressed with a zero alignment factor.
+        return if delta == 0 {
+            Ok(0)
+        } else {
+            Err(Error::InvalidFrameCodeOffset(offset))
+        };
+    }
     let factored_delta = delta / factor;
     if delta != factored_delta * factor {
         return Err(Error::InvalidFrameCodeOffset(offset));
@@ -584,7 +592,12 @@ fn factored_code_delta(prev_offset: u32, offset: u32, factor: u8) -> Result<u32>
 
 fn factored_data_offset(offset: i32, factor: i8) -> Result<i32> {
     let factor = i32::from(factor);
-    let factored_offset = offset / factor;
+    // `checked_div` fails for a zero factor and for `i32::MIN / -1`.
+    let factored_offset = match offset.checked_div(factor) {
+        Some(factored_offset) => factored_offset,
+        None if offset == 0 => 0,
+        None => return Err(Error::InvalidFrameDataOffset(offset)),
+    };
     if offset != factored_offset * factor {
         return Err(Error::InvalidFrameDataOffset(offset));
     }
@@ -665,8 +678,10 @@ pub(crate) mod convert {
         {
             let mut cie = CommonInformationEntry::new(
                 from_cie.encoding(),
-                from_cie.code_alignment_factor() as u8,
-                from_cie.data_alignment_factor() as i8,
+                u8::try_from(from_cie.code_alignment_factor())
+                    .map_err(|_| ConvertError::UnsupportedCfiInstruction)?,
+                i8::try_from(from_cie.data_alignment_factor())
+                    .map_err(|_| ConvertError::UnsupportedCfiInstruction)?,
                 from_cie.return_address_register(),
             );
 
@@ -717,7 +732,8 @@ pub(crate) mod convert {
         {
             let address =
                 convert_address(from_fde.initial_address()).ok_or(ConvertError::InvalidAddress)?;
-            let length = from_fde.len() as u32;
+            let length =
+                u32::try_from(from_fde.len()).map_err(|_| ConvertError::InvalidAddress)?;
             let mut fde = FrameDescriptionEntry::new(address, length);
 
             match from_fde.lsda() {
@@ -770,35 +786,53 @@ pub(crate) mod convert {
                     &NoConvertDebugInfoRef,
                 )
             };
-            // TODO: validate integer type conversions
+            // Offsets that do not fit the writer's types cannot be converted.
+            let unsupported = ConvertError::UnsupportedCfiInstruction;
+            let data_factor = from_cie.data_alignment_factor();
+            let unsigned_offset = |offset: u64| i32::try_from(offset).map_err(|_| unsupported);
+            let signed_factored = |factored_offset: i64| {
+                factored_offset
+                    .checked_mul(data_factor)
+                    .and_then(|offset| i32::try_from(offset).ok())
+                    .ok_or(unsupported)
+            };
+            let unsigned_factored = |factored_offset: u64| {
+                i64::try_from(factored_offset)
+                    .ok()
+                    .and_then(|factored_offset| factored_offset.checked_mul(data_factor))
+                    .and_then(|offset| i32::try_from(offset).ok())
+                    .ok_or(unsupported)
+            };
             Ok(Some(match from_instruction {
                 read::CallFrameInstruction::SetLoc { .. } => {
                     return Err(ConvertError::UnsupportedCfiInstruction);
                 }
                 read::CallFrameInstruction::AdvanceLoc { delta } => {
-                    *offset += delta * from_cie.code_alignment_factor() as u32;
+                    *offset = u64::from(delta)
+                        .checked_mul(from_cie.code_alignment_factor())
+                        .and_then(|delta| delta.checked_add(u64::from(*offset)))
+                        .and_then(|offset| u32::try_from(offset).ok())
+                        .ok_or(unsupported)?;
                     return Ok(None);
                 }
                 read::CallFrameInstruction::DefCfa { register, offset } => {
-                    CallFrameInstruction::Cfa(register, offset as i32)
+                    CallFrameInstruction::Cfa(register, unsigned_offset(offset)?)
                 }
                 read::CallFrameInstruction::DefCfaSf {
                     register,
                     factored_offset,
                 } => {
-                    let offset = factored_offset * from_cie.data_alignment_factor();
-                    CallFrameInstruction::Cfa(register, offset as i32)
+                    CallFrameInstruction::Cfa(register, signed_factored(factored_offset)?)
                 }
                 read::CallFrameInstruction::DefCfaRegister { register } => {
                     CallFrameInstruction::CfaRegister(register)
                 }
 
                 read::CallFrameInstruction::DefCfaOffset { offset } => {
-                    CallFrameInstruction::CfaOffset(offset as i32)
+                    CallFrameInstruction::CfaOffset(unsigned_offset(offset)?)
                 }
                 read::CallFrameInstruction::DefCfaOffsetSf { factored_offset } => {
-                    let offset = factored_offset * from_cie.data_alignment_factor();
-                    CallFrameInstruction::CfaOffset(offset as i32)
+                    CallFrameInstruction::CfaOffset(signed_factored(factored_offset)?)
                 }
                 read::CallFrameInstruction::DefCfaExpression { expression } => {
                     let expression = expression.get(frame)?;
@@ -814,29 +848,25 @@ pub(crate) mod convert {
                     register,
                     factored_offset,
                 } => {
-                    let offset = factored_offset as i64 * from_cie.data_alignment_factor();
-                    CallFrameInstruction::Offset(register, offset as i32)
+                    CallFrameInstruction::Offset(register, unsigned_factored(factored_offset)?)
                 }
                 read::CallFrameInstruction::OffsetExtendedSf {
                     register,
                     factored_offset,
                 } => {
-                    let offset = factored_offset * from_cie.data_alignment_factor();
-                    CallFrameInstruction::Offset(register, offset as i32)
+                    CallFrameInstruction::Offset(register, signed_factored(factored_offset)?)
                 }
                 read::CallFrameInstruction::ValOffset {
                     register,
                     factored_offset,
                 } => {
-                    let offset = factored_offset as i64 * from_cie.data_alignment_factor();
-                    CallFrameInstruction::ValOffset(register, offset as i32)
+                    CallFrameInstruction::ValOffset(register, unsigned_factored(factored_offset)?)
                 }
                 read::CallFrameInstruction::ValOffsetSf {
                     register,
                     factored_offset,
                 } => {
-                    let offset = factored_offset * from_cie.data_alignment_factor();
-                    CallFrameInstruction::ValOffset(register, offset as i32)
+                    CallFrameInstruction::ValOffset(register, signed_factored(factored_offset)?)
                 }
                 read::CallFrameInstruction::Register {
                     dest_register,
